@@ -20,10 +20,12 @@ structure A where
   authed : Bool := false        -- an AUTH exchange has succeeded in the live session
 deriving Repr, DecidableEq, Inhabited
 
-def step (cfg : Cfg) (m : A) (e : Ev) : Except String A :=
-  if m.upgrading && m.live.isSome && (match e with | .logout _ => false | _ => true) then
-    .error "C10 after a successful STARTTLS the plaintext session must be logged out before anything else"
-  else
+/-- right after a successful STARTTLS with a session still logged in, only its Logout may follow -/
+@[simp] def blocked (m : A) (e : Ev) : Bool :=
+  m.upgrading && m.live.isSome && (match e with | .logout _ => false | _ => true)
+
+/-- the rules proper, event by event -/
+@[simp] def core (cfg : Cfg) (m : A) (e : Ev) : Except String A :=
   match e with
   | .w _ => if m.closed then .error "C08 write after the connection was closed" else .ok { m with upgrading := false }
   | .cmd _ => if m.closed then .error "C08 a command was read after the connection was closed" else .ok { m with upgrading := false }
@@ -77,6 +79,11 @@ def step (cfg : Cfg) (m : A) (e : Ev) : Except String A :=
     else if !(m.tls || cfg.insecureAuth) then .error "C09 SASL mechanism received octets on an insecure connection"
     else if m.authed then .error "C09 SASL step after a successful authentication"
     else .ok (if done && r == .ok then { m with authed := true } else m)
+
+def step (cfg : Cfg) (m : A) (e : Ev) : Except String A :=
+  if blocked m e then
+    .error "C10 after a successful STARTTLS the plaintext session must be logged out before anything else"
+  else core cfg m e
 
 def run (cfg : Cfg) : A → List Ev → Except String A
   | m, [] => .ok m
